@@ -97,6 +97,15 @@ CHECKS["C14"] = dict(
    note=TB + "Typed-value completeness and the page-size/shift statement including clears are false for the code (witness examples in C14.lean) and are "
         "recorded as KNOWN_FINDINGS (clear-page-size-shift, vmci-dotted-prefix, vmci-stale-typed, vmci-leading-dot); ten other defects were repaired.",
    technique="Lean 4 proof (coherence invariants over all histories) + differential correspondence", design="§6 C14")
+CHECKS["C19"] = dict(
+   text="Lean proofs over a model of the xc_core page index of elfdump.c (pfn2idx_map_start/addrange/add/end/search with 64-bit wrap-around arithmetic, "
+        "signed run lengths and early-exit loops, both page-list builders, xc_p2m_first_step, xc_m2p_first_step, xc_get_page): for every list of pairwise "
+        "distinct frames, search(build l) p is the list index of p; unlisted frames are missing in both views; guest->machine->guest is the identity on "
+        "listed frames; both views yield the same page index; allocation failure at any point is reported. Tie: the static functions via #include on index "
+        "lists over the whole 2^64 frame space with every realloc failure point, the first-step functions on in-memory tables in both byte orders, and "
+        "generated xc_core files (p2m and pfn-only, LE x86_64 and BE s390x) through kdump_read and addrxlat_fulladdr_conv.",
+   note=TB + "qsort is modelled by an insertion sort (trusted to sort). Page lists naming a frame twice have no consistent view and are outside the property.",
+   technique="Lean 4 proof (run-length index = list index, for all lists) + differential correspondence", design="§6 C19")
 NOT_YET = {}
 
 def main():
